@@ -3,6 +3,7 @@
 //
 //	pmap drive            ops on stdin -> one result line per op on stdout (same format as m_pmap)
 //	pmap gen <n>          n random op lines (flatten / rebuild / emit / read / load)
+//	pmap judge            the property's verdict (ok / fail / known / excluded / skip) for every op line on stdin
 //	pmap oracle <n>       the clauses of the property evaluated on the implementation alone, with
 //	                      encoding/json (UseNumber) as the independent decoder; prints FAIL / KNOWN lines
 //	                      and a summary line `oracle cases=… fails=… <histogram>`
@@ -338,7 +339,7 @@ func runLoad(kind string, consumers int, base string, files []kv) (i18 *i18mem.I
 			return nil, "err"
 		}
 		return i18, "ok"
-	case <-time.After(30 * time.Second):
+	case <-time.After(120 * time.Second):
 		return nil, "hang"
 	}
 }
@@ -352,8 +353,6 @@ func parseCfg(cfg string) (kind string, consumers int) {
 	}
 	return
 }
-
-func isPercentFree(s string) bool { return !strings.Contains(s, "%") }
 
 func opLoad(baseHex, filesArg, cfg string) string {
 	base := string(hx.MustDec(baseHex))
@@ -453,7 +452,7 @@ func drive() {
 // generators
 
 var (
-	segPool = []string{"a", "b", "c", "ab", "é", "\"", "\\", "/", "\n", "k\x01", "😀", " ", "A", "<", " ", "x y", "0"}
+	segPool = []string{"a", "b", "c", "ab", "é", "\"", "\\", "/", "\n", "k\x01", "😀", " ", "A", "<", "\u2028", "x y", "0"}
 	runes   = []rune{'a', 'b', 'z', ' ', '"', '\\', '/', '\n', '\r', '\t', '\b', '\f', 0, 0x1f, 0x7f, '<', '>', '&', 'é', 'ü',
 		'€', '.', 0x2028, 0x2029, 0x1F600, 0xFFFD, '{', '}', '[', ']', ':', ',', '\'', 'u', 'n', 0x10FFFF, 0x7ff, 0x800, 0xffff, 0x10000}
 	badUTF8 = []string{"\xff", "\x80", "\xc3", "\xed\xa0\x80", "\xf4\x90\x80\x80", "\xe2\x80", "\xc0\xaf", "\xf0\x9f\x98"}
@@ -969,26 +968,13 @@ func genOps(n int) {
 // ---------------------------------------------------------------------------------------------
 // oracle: the property's clauses on the implementation alone
 
-type oracle struct {
-	g     *gen
-	w     *bufio.Writer
-	cases int
-	fails int
-	hist  map[string]int
-}
-
-func (o *oracle) fail(clause, class string, ops []string, detail string) {
-	o.fails++
-	o.hist["fail:"+clause]++
-	fmt.Fprintf(o.w, "FAIL %s %s %s :: %s\n", clause, class, strings.Join(ops, ";;"), detail)
-}
-
-// known: the input lies in a documented defect class and shows the documented behaviour
-func (o *oracle) known(id, clause string, ops []string, detail string) {
-	o.hist["known:"+id]++
-	if o.hist["known:"+id] <= 2 {
-		fmt.Fprintf(o.w, "KNOWN %s %s %s :: %s\n", id, clause, strings.Join(ops, ";;"), detail)
-	}
+// verdict of one clause on one input
+type verdict struct {
+	status string // ok | fail | known | excluded | skip
+	id     string // finding id when status == known (or when the input lies in a known class)
+	class  string // input class
+	detail string
+	ops    []string // replayable op lines
 }
 
 func stdDecode(doc string) (map[string]interface{}, error) {
@@ -1005,26 +991,16 @@ func stdDecode(doc string) (map[string]interface{}, error) {
 	return v, nil
 }
 
-func treeOf(m map[string]interface{}) string {
-	// only string leaves survive the token format; used for replay lines
-	return encTree(m)
-}
-
-func (o *oracle) rebuildFlatten() {
-	o.cases++
-	t := o.g.tree(4, true)
+// clause rebuild_flatten on a nested map (string leaves)
+func judgeRebuildFlatten(t map[string]interface{}) verdict {
+	v := verdict{class: "plain", ops: []string{"flatten " + encTree(t)}}
 	kf2 := false
-	if v, ok := t[""]; ok {
-		if _, isMap := v.(map[string]interface{}); !isMap {
+	if x, ok := t[""]; ok {
+		if _, isMap := x.(map[string]interface{}); !isMap {
 			kf2 = true
+			v.class, v.id = "kf2", "KF-C20-2"
 		}
 	}
-	if kf2 {
-		o.hist["rebuild_flatten:kf2-class"]++
-	} else {
-		o.hist["rebuild_flatten"]++
-	}
-	ops := []string{"flatten " + treeOf(t)}
 	var (
 		flat, back map[string]interface{}
 		err        error
@@ -1034,52 +1010,51 @@ func (o *oracle) rebuildFlatten() {
 			back, err = plainmap.ToRecursiveMap(flat)
 		}
 	}); p {
-		o.fail("rebuild_flatten", "panic", ops, "panic")
-		return
+		v.status, v.detail = "fail", "panic"
+		return v
 	}
-	if kf2 {
-		if err != nil {
-			o.known("KF-C20-2", "rebuild_flatten", ops, "a top-level leaf under the empty key flattens to the key \"\" which ToRecursiveMap rejects")
-		} else if !reflect.DeepEqual(back, t) {
-			o.fail("rebuild_flatten", "kf2", ops, "wrong tree")
-		} else {
-			o.hist["kf2-not-shown"]++
+	if flat != nil {
+		sm := map[string]string{}
+		for k, x := range flat {
+			sm[k], _ = x.(string)
 		}
-		return
+		v.ops = append(v.ops, "rebuild "+encFlat(sm))
 	}
-	if err != nil {
-		o.fail("rebuild_flatten", "plain", ops, "error: "+err.Error())
-		return
+	switch {
+	case err == nil && reflect.DeepEqual(back, t):
+		v.status = "ok"
+	case kf2 && err != nil:
+		v.status, v.detail = "known", "a top-level leaf under the empty key flattens to the key \"\" which ToRecursiveMap rejects"
+	case err != nil:
+		v.status, v.detail = "fail", "error: "+err.Error()
+	default:
+		v.status, v.detail = "fail", "rebuilt "+encTree(back)
 	}
-	if !reflect.DeepEqual(back, t) {
-		o.fail("rebuild_flatten", "plain", ops, fmt.Sprintf("rebuilt %s", encTree(back)))
-	}
+	return v
 }
 
-func (o *oracle) flattenRebuild() {
-	o.cases++
-	mode := o.g.r.Pick([]string{"tree", "free", "emptyseg", "dotfirst"})
-	f := o.g.flat(mode)
+// clause flatten_rebuild on a flat map
+func judgeFlattenRebuild(f map[string]string) verdict {
+	v := verdict{class: "plain", ops: []string{"rebuild " + encFlat(f)}}
 	keys := []string{}
 	for k := range f {
 		keys = append(keys, k)
 	}
 	if !prefixFree(keys) {
-		o.hist["flatten_rebuild:skipped-not-prefix-free"]++
-		return
+		v.status, v.class = "skip", "not-prefix-free"
+		return v
 	}
-	if _, ok := f[""]; ok {
-		delete(f, "")
+	_, kf2 := f[""]
+	if kf2 {
+		v.class, v.id = "kf2", "KF-C20-2"
 	}
-	o.hist["flatten_rebuild:"+mode]++
-	ops := []string{"rebuild " + encFlat(f)}
 	var (
 		t1, t2, back map[string]interface{}
 		err          error
 	)
 	im := map[string]interface{}{}
-	for k, v := range f {
-		im[k] = v
+	for k, x := range f {
+		im[k] = x
 	}
 	if p, _ := hx.Guard(func() {
 		if t1, err = plainmap.ToRecursiveMap(im); err != nil {
@@ -1090,94 +1065,80 @@ func (o *oracle) flattenRebuild() {
 		}
 		back, err = plainmap.RecursiveMapToPlainMap(t1)
 	}); p {
-		o.fail("flatten_rebuild", "panic", ops, "panic")
-		return
+		v.status, v.detail = "fail", "panic"
+		return v
 	}
-	if err != nil {
-		o.fail("flatten_rebuild", mode, ops, "error: "+err.Error())
-		return
+	switch {
+	case kf2 && err != nil:
+		v.status, v.detail = "known", "the flat key \"\" is rejected by ToRecursiveMap"
+	case err != nil:
+		v.status, v.detail = "fail", "error: "+err.Error()
+	case !reflect.DeepEqual(t1, t2):
+		v.status, v.detail = "fail", "ToRecursiveMap and StringMapToRecursiveMap differ"
+	case !reflect.DeepEqual(back, im):
+		v.status, v.detail = "fail", "flatten(rebuild f) != f"
+	default:
+		v.status = "ok"
 	}
-	if !reflect.DeepEqual(t1, t2) {
-		o.fail("flatten_rebuild", mode, ops, "ToRecursiveMap and StringMapToRecursiveMap differ")
-		return
-	}
-	if !reflect.DeepEqual(back, im) {
-		o.fail("flatten_rebuild", mode, ops, "flatten(rebuild f) != f")
-	}
+	return v
 }
 
-func (o *oracle) readDecoder() {
-	o.cases++
-	kind := "plain"
-	switch y := o.g.r.Intn(20); {
-	case y < 1:
-		kind = "kf1"
-	case y < 2:
-		kind = "kf3"
-	case y < 4:
-		kind = "dots"
+// clause read_matches_decoder on a document that encoding/json accepts
+func judgeRead(doc string) verdict {
+	v := verdict{class: "plain", ops: []string{"read " + enc(doc)}}
+	if !utf8.ValidString(doc) {
+		v.status, v.class, v.detail = "skip", "not-utf8", "the document is not well-formed UTF-8, hence not a JSON text"
+		return v
 	}
-	doc, byConstruction := o.g.doc(kind)
-	ops := []string{"read " + enc(doc)}
 	std, err := stdDecode(doc)
 	if err != nil {
-		o.fail("read_matches_decoder", "generator", ops, "the generated document is not valid JSON for encoding/json: "+err.Error())
-		return
+		v.status, v.class, v.detail = "skip", "not-json", "encoding/json rejects the document: "+err.Error()
+		return v
+	}
+	if !uniqueFlat(std) {
+		v.status, v.class = "skip", "colliding-dotted-keys"
+		return v
 	}
 	want := refFlat(std)
-	if byConstruction != nil {
-		if !reflect.DeepEqual(refFlat(byConstruction), want) {
-			// dotted keys may collide after joining: not a case of the clause
-			if kind == "dots" {
-				o.hist["read:skipped-colliding-dotted-keys"]++
-				return
-			}
-			o.fail("read_matches_decoder", "generator", ops, "encoding/json disagrees with the value the generator built")
-			return
-		}
+	if sub, isMap := std[""].(map[string]interface{}); isMap && len(refFlat(sub)) > 0 {
+		v.class, v.id = "kf1", "KF-C20-1" // an object with leaves under the empty key at the top
 	}
-	if kind == "dots" && !uniqueFlat(std) {
-		o.hist["read:skipped-colliding-dotted-keys"]++
-		return
+	if hasLoneSurrogateEscape(doc) {
+		v.class, v.id = "kf3", "KF-C20-3"
 	}
 	var got map[string]string
 	if p, _ := hx.Guard(func() { got, err = plainmap.JSONToPlainStringMap([]byte(doc)) }); p {
-		o.fail("read_matches_decoder", "panic", ops, "panic")
-		return
+		v.status, v.detail = "fail", "panic"
+		return v
 	}
-	okRes := err == nil && reflect.DeepEqual(got, want)
-	if sub, isMap := std[""].(map[string]interface{}); isMap && len(refFlat(sub)) > 0 && kind != "kf3" {
-		kind = "kf1" // defect class of KF-C20-1: an object with leaves under the empty key at the top
-	}
-	o.hist["read:"+kind]++
-	switch kind {
-	case "kf1":
-		if !okRes {
-			o.known("KF-C20-1", "read_matches_decoder", ops, fmt.Sprintf("want %s got %s", encFlat(want), encFlat(got)))
-		} else {
-			o.hist["kf1-not-shown"]++
-		}
-	case "kf3":
-		if !okRes {
-			o.known("KF-C20-3", "read_matches_decoder", ops, fmt.Sprintf("want %s got %s err=%v", encFlat(want), encFlat(got), err != nil))
-		} else {
-			o.hist["kf3-not-shown"]++
-		}
+	switch {
+	case err == nil && reflect.DeepEqual(got, want):
+		v.status = "ok"
+	case v.id != "":
+		v.status, v.detail = "known", fmt.Sprintf("want %s got %s err=%v", encFlat(want), encFlat(got), err != nil)
+	case err != nil:
+		v.status, v.detail = "fail", "error: "+err.Error()
 	default:
-		if err != nil {
-			o.fail("read_matches_decoder", kind, ops, "error: "+err.Error())
-		} else if !okRes {
-			o.fail("read_matches_decoder", kind, ops, fmt.Sprintf("want %s got %s", encFlat(want), encFlat(got)))
-		}
+		v.status, v.detail = "fail", fmt.Sprintf("want %s got %s", encFlat(want), encFlat(got))
 	}
+	return v
 }
 
-func (o *oracle) writeRead() {
-	o.cases++
-	mode := o.g.r.Pick([]string{"tree", "tree", "free", "free", "emptyseg", "conflict", "emptykey", "dotfirst", "badutf8"})
-	f := o.g.flat(mode)
-	o.hist["write_read:"+mode]++
-	ops := []string{"emit " + encFlat(f)}
+// clause write_read on a flat map
+func judgeWriteRead(f map[string]string) verdict {
+	v := verdict{class: "plain", ops: []string{"emit " + encFlat(f)}}
+	valid := true
+	for k, x := range f {
+		if strings.HasPrefix(k, ".") {
+			v.class, v.id = "kf1", "KF-C20-1" // some key begins with a dot (empty first segment)
+		}
+		if !utf8.ValidString(k) || !utf8.ValidString(x) {
+			valid = false
+		}
+	}
+	if !valid {
+		v.class, v.id = "badutf8", ""
+	}
 	var (
 		doc string
 		got map[string]string
@@ -1188,123 +1149,234 @@ func (o *oracle) writeRead() {
 			got, err = plainmap.JSONToPlainStringMap([]byte(doc))
 		}
 	}); p {
-		o.fail("write_read", "panic", ops, "panic")
-		return
+		v.status, v.detail = "fail", "panic"
+		return v
 	}
-	ops = append(ops, "read "+enc(doc))
+	v.ops = append(v.ops, "read "+enc(doc))
 	okRes := err == nil && reflect.DeepEqual(got, f)
-	kf1 := false // defect class of KF-C20-1: some key begins with a dot (empty first segment)
-	for k := range f {
-		if strings.HasPrefix(k, ".") {
-			kf1 = true
-		}
-	}
-	if kf1 {
-		o.hist["write_read:kf1-class"]++
+	if !json.Valid([]byte(doc)) {
+		v.status, v.detail = "fail", "the emitted document is not valid JSON"
+		return v
 	}
 	switch {
-	case kf1 && mode != "badutf8":
-		if !okRes {
-			o.known("KF-C20-1", "write_read", ops, fmt.Sprintf("wrote %s read back %s", encFlat(f), encFlat(got)))
-		} else {
-			o.hist["kf1-not-shown"]++
-		}
-		return
-	case mode == "badutf8":
-		// excluded point of the theorem (hypothesis: keys and values are valid UTF-8)
+	case !valid:
+		// excluded point of the theorem (hypothesis: keys and values are well-formed UTF-8)
+		v.status = "excluded"
 		if okRes {
-			o.hist["badutf8:roundtrip-equal"]++
+			v.detail = "equal"
 		} else {
-			o.hist["badutf8:roundtrip-differs"]++
+			v.detail = "differs"
 		}
-		if !json.Valid([]byte(doc)) {
-			o.fail("write_read", mode, ops, "emitted document is not valid JSON")
-		}
-		return
+		return v
+	case okRes:
+		v.status = "ok"
+	case v.id != "":
+		v.status, v.detail = "known", fmt.Sprintf("wrote %s read back %s", encFlat(f), encFlat(got))
+		return v
+	default:
+		v.status, v.detail = "fail", fmt.Sprintf("wrote %s read back %s err=%v", encFlat(f), encFlat(got), err)
+		return v
 	}
-	if !okRes {
-		o.fail("write_read", mode, ops, fmt.Sprintf("wrote %s read back %s err=%v", encFlat(f), encFlat(got), err))
-		return
+	// with prefix-free keys (outside the KF-C20-1 class) the document denotes the same map for a standard decoder
+	keys := []string{}
+	for k := range f {
+		keys = append(keys, k)
 	}
-	// the written document is JSON a standard decoder accepts; with prefix-free keys it denotes the same map
-	if !json.Valid([]byte(doc)) {
-		o.fail("write_read", mode, ops, "emitted document is not valid JSON")
-		return
-	}
-	if mode == "tree" || mode == "free" || mode == "emptyseg" {
-		keys := []string{}
-		for k := range f {
-			keys = append(keys, k)
-		}
-		if prefixFree(keys) {
-			std, err := stdDecode(doc)
-			if err != nil || !reflect.DeepEqual(refFlat(std), f) {
-				o.fail("write_read", mode, ops, "encoding/json reads a different map from the emitted document")
-			}
-			o.hist["write_read:std-decoder-agrees-checked"]++
+	if v.id == "" && prefixFree(keys) {
+		std, err := stdDecode(doc)
+		if err != nil || !reflect.DeepEqual(refFlat(std), f) {
+			v.status, v.detail = "fail", "encoding/json reads a different map from the emitted document"
+		} else {
+			v.detail = "std-decoder-agrees"
 		}
 	}
+	return v
 }
 
-func (o *oracle) loadAll() {
-	o.cases++
-	mode := o.g.r.Pick([]string{"disjoint", "disjoint", "agree", "percent", "conflict"})
-	l := o.g.layout(mode)
-	o.hist["load:"+mode]++
-	o.hist["load:fs="+l.kind]++
-	o.hist[fmt.Sprintf("load:consumers=%02d", l.consumers)]++
-	o.hist[fmt.Sprintf("load:files=%02d-%02d", len(l.files)/10*10, len(l.files)/10*10+9)]++
-	ops := []string{l.op()}
+// clause load_all_keys on a directory layout
+func judgeLoad(l layout) (v verdict, keysChecked, foreignChecked int) {
+	v = verdict{class: l.kind, ops: []string{l.op()}}
 	i18, status := runLoad(l.kind, l.consumers, l.base, l.files)
-	if status != "ok" {
-		o.fail("load_all_keys", status, ops, "Load: "+status)
-		return
-	}
-	// expectations from the generator's own documents, decoded by encoding/json
+	// expectations from the documents, decoded by encoding/json
 	want := map[string][]string{}
 	foreign := map[string]bool{}
+	broken := false
+	base := strings.TrimPrefix(l.base, "./")
 	for _, f := range l.files {
+		reach := strings.HasPrefix(f.k, base) && strings.HasSuffix(f.k, ".json")
 		std, err := stdDecode(f.v)
-		if err != nil {
+		if err != nil || !utf8.ValidString(f.v) {
+			// not a JSON text (a mutated file): nothing is claimed about it
+			if reach {
+				broken = true
+			}
 			continue
 		}
-		reach := strings.HasPrefix(f.k, strings.TrimPrefix(l.base, "./")) && strings.HasSuffix(f.k, ".json")
-		for k, v := range refFlat(std) {
+		for k, x := range refFlat(std) {
 			if reach {
-				want[k] = append(want[k], v)
+				want[k] = append(want[k], x)
 			} else {
 				foreign[k] = true
 			}
 		}
 	}
+	if broken {
+		// a translation file that is not JSON: Load must report an error (nothing is claimed about the rest)
+		switch status {
+		case "err":
+			v.status, v.class = "ok", "broken-file"
+		case "panic", "hang":
+			v.status, v.class, v.detail = "fail", "broken-file", "Load: "+status
+		default: // the lenient reader accepted the file
+			v.status, v.class, v.detail = "skip", "broken-file", "Load: "+status
+		}
+		return
+	}
+	if status != "ok" {
+		v.status, v.detail = "fail", "Load: "+status
+		return
+	}
 	for k, vs := range want {
 		got, err := i18.Translate(k)
 		if err != nil {
-			o.fail("load_all_keys", mode, ops, fmt.Sprintf("key %s of a loaded file is not translatable", enc(k)))
+			v.status, v.detail = "fail", fmt.Sprintf("key %s of a loaded file is not translatable", enc(k))
 			return
 		}
 		hit := false
-		for _, v := range vs {
-			if got == fmt.Sprintf(v) {
+		for _, x := range vs {
+			if got == fmt.Sprintf(x) {
 				hit = true
 			}
 		}
 		if !hit {
-			o.fail("load_all_keys", mode, ops, fmt.Sprintf("key %s translates to %s, no file says so", enc(k), enc(got)))
+			v.status, v.detail = "fail", fmt.Sprintf("key %s translates to %s, no file says so", enc(k), enc(got))
 			return
 		}
-		o.hist["load:keys-checked"]++
+		keysChecked++
 	}
 	for k := range foreign {
 		if _, isWanted := want[k]; isWanted {
 			continue
 		}
 		if _, err := i18.Translate(k); err == nil {
-			o.fail("load_all_keys", mode, ops, fmt.Sprintf("key %s of a file that is not a *.json file below the base is translatable", enc(k)))
+			v.status, v.detail = "fail", fmt.Sprintf("key %s of a file that is not a *.json file below the base is translatable", enc(k))
 			return
 		}
-		o.hist["load:foreign-keys-checked"]++
+		foreignChecked++
 	}
+	v.status = "ok"
+	return
+}
+
+// hasLoneSurrogateEscape: some \uXXXX escape of a surrogate code unit that is not part of a high/low pair
+func hasLoneSurrogateEscape(doc string) bool {
+	b := []byte(doc)
+	unit := func(i int) (int, bool) { // \uXXXX at i
+		if i+6 > len(b) || b[i] != '\\' || b[i+1] != 'u' {
+			return 0, false
+		}
+		n, err := strconv.ParseUint(string(b[i+2:i+6]), 16, 32)
+		return int(n), err == nil
+	}
+	for i := 0; i < len(b); i++ {
+		if b[i] != '\\' {
+			continue
+		}
+		if i+1 < len(b) && b[i+1] != 'u' {
+			i++ // an escaped character (also an escaped backslash)
+			continue
+		}
+		u, ok := unit(i)
+		if !ok {
+			continue
+		}
+		switch {
+		case u >= 0xD800 && u <= 0xDBFF:
+			lo, ok2 := unit(i + 6)
+			if !ok2 || lo < 0xDC00 || lo > 0xDFFF {
+				return true
+			}
+			i += 11
+		case u >= 0xDC00 && u <= 0xDFFF:
+			return true
+		default:
+			i += 5
+		}
+	}
+	return false
+}
+
+type oracle struct {
+	g     *gen
+	w     *bufio.Writer
+	cases int
+	fails int
+	hist  map[string]int
+}
+
+// account a verdict; returns true when the case counted as a check of the clause
+func (o *oracle) take(clause string, v verdict) {
+	o.cases++
+	o.hist[clause+":"+v.class+":"+v.status]++
+	switch v.status {
+	case "fail":
+		o.fails++
+		o.hist["fail:"+clause]++
+		fmt.Fprintf(o.w, "FAIL %s %s %s :: %s\n", clause, v.class, strings.Join(v.ops, ";;"), v.detail)
+	case "known":
+		o.hist["known:"+v.id]++
+		if o.hist["known:"+v.id] <= 2 {
+			fmt.Fprintf(o.w, "KNOWN %s %s %s :: %s\n", v.id, clause, strings.Join(v.ops, ";;"), v.detail)
+		}
+	case "ok":
+		if v.id != "" {
+			o.hist["class-without-defect:"+v.id]++
+		}
+	case "excluded":
+		o.hist["excluded:"+clause+":"+v.detail]++
+	}
+}
+
+func (o *oracle) readDecoder() {
+	kind := "plain"
+	switch y := o.g.r.Intn(20); {
+	case y < 1:
+		kind = "kf1"
+	case y < 2:
+		kind = "kf3"
+	case y < 4:
+		kind = "dots"
+	}
+	doc, byConstruction := o.g.doc(kind)
+	std, err := stdDecode(doc)
+	if err != nil {
+		o.take("read_matches_decoder", verdict{status: "fail", class: "generator", ops: []string{"read " + enc(doc)},
+			detail: "the generated document is not valid JSON for encoding/json: " + err.Error()})
+		return
+	}
+	if byConstruction != nil && uniqueFlat(std) && !reflect.DeepEqual(refFlat(byConstruction), refFlat(std)) {
+		o.take("read_matches_decoder", verdict{status: "fail", class: "generator", ops: []string{"read " + enc(doc)},
+			detail: "encoding/json disagrees with the value the generator built"})
+		return
+	}
+	o.take("read_matches_decoder", judgeRead(doc))
+}
+
+func (o *oracle) loadAll() {
+	mode := o.g.r.Pick([]string{"disjoint", "disjoint", "agree", "percent", "conflict", "broken"})
+	if mode == "broken" && os.Getenv("PMAP_NO_BROKEN") != "" {
+		// under the race detector only successful loads are of interest here: after a failed Load the walk's
+		// producers are still running (fsloop / jobsync error path, not this property's subject)
+		mode = "disjoint"
+	}
+	l := o.g.layout(mode)
+	o.hist["load:mode="+mode]++
+	o.hist[fmt.Sprintf("load:consumers=%02d", l.consumers)]++
+	o.hist[fmt.Sprintf("load:files=%02d-%02d", len(l.files)/10*10, len(l.files)/10*10+9)]++
+	v, kc, fc := judgeLoad(l)
+	o.hist["load:keys-checked"] += kc
+	o.hist["load:foreign-keys-checked"] += fc
+	o.take("load_all_keys", v)
 }
 
 func runOracle(n int) {
@@ -1313,13 +1385,15 @@ func runOracle(n int) {
 	for i := 0; i < n; i++ {
 		switch x := o.g.r.Intn(100); {
 		case x < 20:
-			o.rebuildFlatten()
+			o.take("rebuild_flatten", judgeRebuildFlatten(o.g.tree(4, true)))
 		case x < 38:
-			o.flattenRebuild()
+			f := o.g.flat(o.g.r.Pick([]string{"tree", "free", "emptyseg", "dotfirst", "emptykey"}))
+			o.take("flatten_rebuild", judgeFlattenRebuild(f))
 		case x < 65:
 			o.readDecoder()
 		case x < 92:
-			o.writeRead()
+			mode := o.g.r.Pick([]string{"tree", "tree", "free", "free", "emptyseg", "conflict", "emptykey", "dotfirst", "badutf8"})
+			o.take("write_read", judgeWriteRead(o.g.flat(mode)))
 		default:
 			o.loadAll()
 		}
@@ -1336,6 +1410,41 @@ func runOracle(n int) {
 	fmt.Fprintf(o.w, "oracle cases=%d fails=%d%s\n", o.cases, o.fails, b.String())
 }
 
+// judge: the property's verdict for every op line on stdin (used by --replay)
+func judge() {
+	sc := bufio.NewScanner(os.Stdin)
+	sc.Buffer(make([]byte, 1<<20), 1<<28)
+	w := bufio.NewWriter(os.Stdout)
+	defer w.Flush()
+	for sc.Scan() {
+		line := sc.Text()
+		if line == "" || strings.HasPrefix(line, "#") {
+			continue
+		}
+		f := strings.Split(line, " ")
+		var v verdict
+		clause := "?"
+		switch {
+		case f[0] == "flatten" && len(f) == 2:
+			clause, v = "rebuild_flatten", judgeRebuildFlatten(decTree(f[1]))
+		case f[0] == "rebuild" && len(f) == 2:
+			clause, v = "flatten_rebuild", judgeFlattenRebuild(pairsToMap(decPairs(f[1])))
+		case f[0] == "emit" && len(f) == 2:
+			clause, v = "write_read", judgeWriteRead(pairsToMap(decPairs(f[1])))
+		case f[0] == "read" && len(f) == 2:
+			clause, v = "read_matches_decoder", judgeRead(string(hx.MustDec(f[1])))
+		case f[0] == "load" && len(f) == 4:
+			kind, consumers := parseCfg(f[3])
+			clause = "load_all_keys"
+			v, _, _ = judgeLoad(layout{base: string(hx.MustDec(f[1])), files: decPairs(f[2]), kind: kind, consumers: consumers})
+		default:
+			v = verdict{status: "skip", detail: "bad op"}
+		}
+		fmt.Fprintf(w, "%s %s class=%s id=%s %s\n", v.status, clause, v.class, v.id, v.detail)
+		w.Flush()
+	}
+}
+
 // ---------------------------------------------------------------------------------------------
 
 func main() {
@@ -1343,7 +1452,6 @@ func main() {
 		fmt.Fprintln(os.Stderr, "usage: pmap drive|gen <n>|oracle <n>")
 		os.Exit(2)
 	}
-	_ = utf8.RuneError
 	switch os.Args[1] {
 	case "drive":
 		drive()
@@ -1353,6 +1461,8 @@ func main() {
 	case "oracle":
 		n, _ := strconv.Atoi(os.Args[2])
 		runOracle(n)
+	case "judge":
+		judge()
 	default:
 		fmt.Fprintln(os.Stderr, "unknown subcommand")
 		os.Exit(2)
